@@ -45,3 +45,5 @@ def run(ctx):
     ctx.guard(k19_match, ctx, "C06")
     from ..rules_misc import k21_match_overrides
     ctx.guard(k21_match_overrides, ctx, "C06")
+    from ..rules_ast import match_slot_rule
+    ctx.guard(match_slot_rule, ctx, "C06.match-slot")
